@@ -268,6 +268,17 @@ func suiteChunk(prop, only, tier string, seed uint64, model string) *Report {
 			add(append(append(d, ' '), genDoc(r)...))
 		}
 	}
+	// a byte order mark in front (skipped only when the first read has more than 3 bytes) and
+	// U+FEFF inside strings (never to be skipped)
+	for i, in := range append([][]byte(nil), inputs...) {
+		if i%9 == 0 && len(in) > 0 && len(in) < 60 {
+			add(append([]byte("\xef\xbb\xbf"), in...))
+		}
+	}
+	add([]byte("[\"a\xef\xbb\xbfb\",\"\xef\xbb\xbf\"]"))
+	add([]byte("{\"\xef\xbb\xbfk\":\"v\xef\xbb\xbf\"}"))
+	add([]byte("\xef\xbb\xbf[1,\n 2,\n x]"))
+	add([]byte("\xef\xbb\xbf{\"a\":tru }"))
 	type job struct {
 		in     []byte
 		fe     int
@@ -330,7 +341,13 @@ func suiteChunk(prop, only, tier string, seed uint64, model string) *Report {
 				rep.Add(Disagreement{Case: desc, Where: feNames[j.fe], Kind: "impl-vs-model:position-chunked", Impl: impl, Model: mod})
 			}
 			if impl != j.whole && strings.HasPrefix(impl, "E") && strings.HasPrefix(j.whole, "E") {
-				rep.Add(Disagreement{Case: desc, Where: feNames[j.fe], Kind: "impl-vs-spec:position-chunked", Impl: impl, Spec: j.whole})
+				class := ""
+				if strings.HasPrefix(string(j.in), "\xef\xbb\xbf") && len(j.chunks) > 0 && j.chunks[0] <= 3 && impl == mod && impl == "E 1 1" {
+					// the recorded reader behaviour (C03): a BOM is looked for only in a first read of more
+					// than 3 bytes; the unskipped BOM is then rejected at 1:1
+					class = "bom-short-first-read"
+				}
+				rep.Add(Disagreement{Case: desc, Where: feNames[j.fe], Kind: "impl-vs-spec:position-chunked", Impl: impl, Spec: j.whole, Class: class})
 			}
 			continue
 		}
